@@ -61,6 +61,18 @@ CHECKS = {
              'including commits, undos and reopen after the pack.',
         note='history level (bytes of the pack in C08/C09 machinery); pack times at second boundaries; blobs in C13',
         design='6/C07'),
+    'C19': dict(
+        technique='TLA+ spec ZFsIndex (flat ordered-map meaning next to a transcription of fsIndex two-level state and of the '
+                  'minKey/maxKey case analysis) model-checked by TLC; every transition of the dumped state graph executed on a '
+                  'real fsIndex under several byte concretisations, every query compared with the table TLC printed',
+        text='TLC checks Refines/QueriesAgree/BoundsAgree/RoundTrip for every index over 3x3 (thorough: up to 4x3, 3x4, 4x4 with <=4 '
+             'keys, 2 values) and every query key; with AsCode=TRUE (the case analysis before fix b70e98f) it exhibits F1. '
+             'Conformance: each graph edge (set, overwrite, del incl. absent key, clear, update, save, load) is executed on the '
+             'real class, then len/keys/items/values/iterators/get/in/[]/minKey/maxKey (unbounded and bounded by every key, '
+             'absent prefixes, 00../ff.. prefixes, positions 0, 1, 2^48-1) must equal the table TLC printed; seeded long walks; '
+             'FileStorage.record_iternext over sparse oids as consumer.',
+        note='exhaustive within the bounded universes (small-scope); BTrees and pickle trusted',
+        design='6/C19'),
     'C20': dict(
         technique='TLA+ spec ZStorage action property OidFresh model-checked by TLC; allocation-heavy TLC behaviours '
                   'replayed with an independent freshness monitor on every new_oid',
